@@ -4,6 +4,7 @@
 //! Oracle: offline replay of the written table against an independent recount of the corpus
 //! (the incremental pair statistics of the repo are never consulted).
 use crate::core::*;
+use crate::gen;
 use rand::seq::IndexedRandom;
 use rand::Rng as _;
 use serde::{Deserialize, Serialize};
@@ -417,6 +418,11 @@ impl Prop for C19 {
             Lane::new("schedules", tier.pick(800, 12_000))
                 .cap(tier.pick(180, 1500))
                 .floor(tier.pick(100, 2_000)),
+            // the main generator with 41 - 10 000 lines, up to 2500 distinct words, some lines
+            // of up to 60 words and up to 2256 requested merges
+            Lane::new("large", tier.pick(400, 8_000))
+                .cap(tier.pick(180, 1500))
+                .floor(tier.pick(25, 500)),
         ]
     }
 
@@ -464,7 +470,7 @@ impl Prop for C19 {
             alpha.push("\u{fb01}");
         }
         // word list, most frequent first
-        let nw = rng.random_range(2..=10usize);
+        let nw = rng.random_range(2..=gen::sc(10));
         let max_len = *[2usize, 3, 4, 6, 6].choose(rng).unwrap();
         let mut words: Vec<String> = Vec::new();
         for _ in 0..nw {
@@ -478,6 +484,8 @@ impl Prop for C19 {
             rng.random_range(20..=40usize)
         } else {
             match rng.random_range(0..10) {
+                // `large` lane: 41 - 10 000 lines
+                _ if gen::scale() > 1 => rng.random_range(41..=gen::sc(40)),
                 0 => rng.random_range(1..=2usize),
                 1..=4 => rng.random_range(3..=12usize),
                 _ => rng.random_range(13..=40usize),
@@ -489,7 +497,13 @@ impl Prop for C19 {
                 if !schedules && rng.random_range(0..25) == 0 {
                     return if rng.random_bool(0.5) { String::new() } else { " \t".to_string() };
                 }
-                let n = if one_word_lines { 1 } else { rng.random_range(1..=6usize) };
+                let n = if one_word_lines {
+                    1
+                } else if gen::scale() > 1 && rng.random_range(0..20) == 0 {
+                    rng.random_range(7..=60usize)
+                } else {
+                    rng.random_range(1..=6usize)
+                };
                 gen_line(rng, &words, n, plain_ws || schedules)
             })
             .collect();
@@ -518,6 +532,8 @@ impl Prop for C19 {
         };
         // requested merges
         let r = match rng.random_range(0..100) {
+            // `large` lane: up to 2256 requested merges
+            0..=29 if gen::scale() > 1 => rng.random_range(257..=256 + gen::sc(8)),
             0..=5 => 0,
             6..=25 => rng.random_range(1..=6usize),
             26..=50 => rng.random_range(7..=40usize),
@@ -555,8 +571,11 @@ impl Prop for C19 {
         let h = hash64(&serde_json::to_string(c).unwrap_or_default());
         let s = crate::sched::sched();
         s.ensure_installed();
-        s.set_chaos_all(h, (h % 4) as u8);
-        obs.tag_if(h % 4 != 0, "delay-injection-in-counting-threads");
+        // (corpora of more than 300 lines run without injected delays: one delay per line and
+        // schedule point would cost CPU-minutes)
+        let level = if c.files.iter().map(|f| f.len()).sum::<usize>() > 300 { 0 } else { (h % 4) as u8 };
+        s.set_chaos_all(h, level);
+        obs.tag_if(level != 0, "delay-injection-in-counting-threads");
         check_with_delays(c, obs);
         s.set_chaos_all(0, 0);
     }
